@@ -205,7 +205,8 @@ pub fn extract_param(param: &ReferenceOr<Parameter>, spec: &OpenAPI) -> Result<h
     Ok(hir::Parameter {
         doc: None,
         name: data.name.to_string(),
-        optional: !data.required,
+        // path parameters are always required, whatever the document says
+        optional: !(data.required || matches!(param.kind, openapiv3::ParameterKind::Path { .. })),
         location: param.into(),
         ty,
         example: schema.example.clone(),
